@@ -180,7 +180,9 @@ static int repair_step(struct snapraid_state* state, int rehash, unsigned pos, u
 	error = 0;
 
 	/* setup vector of failed disk indexes */
-	for (i = 0; i < failed_count; ++i)
+	/* with more failures than parities the vector is not used, */
+	/* but ensure to not overflow it */
+	for (i = 0; i < failed_count && i < LEV_MAX; ++i)
 		id[i] = failed[failed_map[i]].index;
 
 	/* check if there is at least a failed block that can be checked for correctness using the hash */
